@@ -1166,6 +1166,10 @@ class FD:
             return getattr(recv, attr)(*args)
         if isinstance(recv, Obj) and ('method:' + attr) in recv.attrs:
             return recv.attrs['method:' + attr](*args)
+        if isinstance(recv, (str, int, float, bool, bytes, list, tuple, dict, set, frozenset)) and \
+                not hasattr(recv, attr):
+            # a concrete Python value that simply has no such method: CPython's answer is AttributeError
+            raise Raised('AttributeError', "'%s' object has no attribute '%s'" % (type(recv).__name__, attr))
         raise Inconclusive('fdeval: method %s on %r' % (attr, recv))
 
     # -- statements --------------------------------------------------------------------------
